@@ -73,7 +73,8 @@ Common(ev) ==
 (* Actions.  Each returns [s |-> new session state, fails |-> set].        *)
 (***************************************************************************)
 DoCreate(ev) ==
-    [ s |-> [NoSes EXCEPT !.phase = "created", !.codec = ev.codec, !.role = ev.role],
+    [ s |-> [NoSes EXCEPT !.phase = "created", !.codec = ev.codec, !.role = ev.role,
+                          !.both = ("both" \in DOMAIN ev /\ ev.both = 1)],
       fails |-> F(ev.st = OK /\ ev.null = 0, "C09", "create-status") ]
 
 TrulyNull(H, n) == Len(H) > 0 /\ SumOfRows(H) = {n - 1}
@@ -245,7 +246,7 @@ DoBuild(s0, ev) ==
               ELSE s0.built
         tag == IF s0.codec = 5 THEN "C16" ELSE "C06"
     IN  [ s |-> [s0 EXCEPT !.built = b1],
-          fails |-> F(s0.phase = "configured" /\ s0.role = "enc", "INFRA", "driver-protocol")
+          fails |-> F(s0.phase = "configured" /\ (s0.role = "enc" \/ s0.both), "INFRA", "driver-protocol")
                     \cup F(rep => s0.npos >= s0.k, "INFRA", "driver-replicated-payload-shorter-than-k")
                     \cup F(IsBin(s0) => HaveEq(s0), "INFRA", "no-parity-check-equations-in-trace")
                     \cup F(ev.st = OK, tag, "build-status")
